@@ -9,6 +9,7 @@ import (
 	"errors"
 	"fmt"
 	"reflect"
+	"sort"
 	"strings"
 	"sync"
 	"time"
@@ -31,6 +32,7 @@ type c19Case struct {
 	Globals  []string `json:"globals"`
 	AllowGo  bool     `json:"allowgo"`
 	Prog     []site   `json:"prog"`
+	Hist     bool     `json:"hist"`
 }
 
 var (
@@ -38,6 +40,7 @@ var (
 	wrapCalls int
 	hookCalls int
 	hookNames [][2]string
+	hookIDs   []string
 	unknown   int
 	active    bool
 )
@@ -54,13 +57,21 @@ func p1A() int { return logWrap("p1.A") }
 func p1B() int { return logWrap("p1.B") }
 func p2A() int { return logWrap("p2.A") }
 func gA() int  { return logWrap(".A") }
+func p1C() int { return logWrap("p1.C") }
+func gA2() int { return logWrap(".A(2)") }
 
 // exists in the binary but is never supplied to scriggo
 func notSupplied() int { return logWrap("NOT-SUPPLIED") }
 
 var byPtr = map[uintptr][2]string{}
+var idByPtr = map[uintptr]string{}
 
 func init() {
+	for id, f := range map[string]any{"p1A": p1A, "p1B": p1B, "p2A": p2A, "gA": gA, "p1C": p1C, "gA2": gA2} {
+		idByPtr[reflect.ValueOf(f).Pointer()] = id
+	}
+	byPtr[reflect.ValueOf(p1C).Pointer()] = [2]string{"p1", "C"}
+	byPtr[reflect.ValueOf(gA2).Pointer()] = [2]string{"", "A"}
 	byPtr[reflect.ValueOf(p1A).Pointer()] = [2]string{"p1", "A"}
 	byPtr[reflect.ValueOf(p1B).Pointer()] = [2]string{"p1", "B"}
 	byPtr[reflect.ValueOf(p2A).Pointer()] = [2]string{"p2", "A"}
@@ -80,6 +91,7 @@ func hook(vm, env uintptr, ev string, a int, b uintptr) {
 	hookCalls++
 	if n, ok := byPtr[b]; ok {
 		hookNames = append(hookNames, n)
+		hookIDs = append(hookIDs, idByPtr[b])
 	} else {
 		unknown++
 	}
@@ -93,6 +105,9 @@ func ident(pkg string) string {
 }
 
 func callExpr(s site) string {
+	if s.Pkg == "#" {
+		return s.Fn + "(1)"
+	}
 	if s.Pkg == "" {
 		return s.Fn + "()"
 	}
@@ -111,7 +126,7 @@ func goSource(c c19Case) string {
 	b.WriteString("package main\n")
 	seen := map[string]bool{}
 	for _, s := range c.Prog {
-		if s.Pkg != "" && !seen[s.Pkg] {
+		if s.Pkg != "" && s.Pkg != "#" && !seen[s.Pkg] {
 			seen[s.Pkg] = true
 			fmt.Fprintf(&b, "import %q\n", s.Pkg)
 		}
@@ -139,7 +154,7 @@ func tmplSource(c c19Case) string {
 	var b strings.Builder
 	seen := map[string]bool{}
 	for _, s := range c.Prog {
-		if s.Pkg != "" && !seen[s.Pkg] {
+		if s.Pkg != "" && s.Pkg != "#" && !seen[s.Pkg] {
 			seen[s.Pkg] = true
 			fmt.Fprintf(&b, "{%% import %q %%}", s.Pkg)
 		}
@@ -161,6 +176,104 @@ func tmplSource(c c19Case) string {
 	return b.String()
 }
 
+func names(d native.Declarations) []string {
+	out := []string{}
+	for k := range d {
+		out = append(out, k)
+	}
+	sort.Strings(out)
+	return out
+}
+
+func buildAndRun(c c19Case, form string, step int, pk native.Packages, globals, p1decls, p2decls native.Declarations) map[string]any {
+	mu.Lock()
+	wrapCalls, hookCalls, hookNames, hookIDs, unknown, active = 0, 0, nil, nil, 0, true
+	mu.Unlock()
+	build := "ok"
+	src := ""
+	func() {
+		defer func() {
+			if v := recover(); v != nil {
+				build = "hostpanic"
+			}
+		}()
+		opts := &scriggo.BuildOptions{AllowGoStmt: c.AllowGo, Packages: pk}
+		var run func() error
+		var err error
+		if form == "program" {
+			src = goSource(c)
+			var p *scriggo.Program
+			p, err = scriggo.Build(scriggo.Files{"main.go": []byte(src)}, opts)
+			if err == nil {
+				run = func() error { return p.Run(&scriggo.RunOptions{Print: func(any) {}}) }
+			}
+		} else {
+			src = tmplSource(c)
+			opts.Globals = globals
+			var t *scriggo.Template
+			t, err = scriggo.BuildTemplate(scriggo.Files{"index.txt": []byte(src)}, "index.txt", opts)
+			if err == nil {
+				run = func() error { return t.Run(&bytes.Buffer{}, nil, &scriggo.RunOptions{Print: func(any) {}}) }
+			}
+		}
+		if err != nil {
+			var be *scriggo.BuildError
+			if errors.As(err, &be) {
+				build = "builderror"
+			} else {
+				build = "othererror"
+			}
+			return
+		}
+		if rerr := run(); rerr != nil {
+			build = "runerror:" + rerr.Error()
+		}
+	}()
+	for k := 0; k < 200; k++ { // a `go` call of a host function completes asynchronously
+		mu.Lock()
+		done := wrapCalls >= hookCalls
+		mu.Unlock()
+		if done {
+			break
+		}
+		time.Sleep(100 * time.Microsecond)
+	}
+	mu.Lock()
+	defer mu.Unlock()
+	active = false
+	calls := make([][2]string, len(hookNames))
+	copy(calls, hookNames)
+	ids := append([]string{}, hookIDs...)
+	// what the embedder's objects declare now, and the identities behind the declarations
+	decl := [][]any{}
+	supplied := []string{}
+	addID := func(f any) { supplied = append(supplied, idByPtr[reflect.ValueOf(f).Pointer()]) }
+	for _, p := range c.Importer {
+		switch p {
+		case "p1":
+			decl = append(decl, []any{"p1", names(p1decls)})
+			for _, f := range p1decls {
+				addID(f)
+			}
+		case "p2":
+			decl = append(decl, []any{"p2", names(p2decls)})
+			for _, f := range p2decls {
+				addID(f)
+			}
+		}
+	}
+	if form == "template" {
+		decl = append(decl, []any{"", names(globals)})
+		for _, f := range globals {
+			addID(f)
+		}
+	}
+	sort.Strings(supplied)
+	return map[string]any{"id": c.ID, "form": form, "step": step, "importer": c.Importer, "globals": c.Globals, "allowgo": c.AllowGo, "hist": c.Hist,
+		"prog": c.Prog, "build": build, "calls": calls, "callids": ids, "supplied": supplied, "decl": decl,
+		"unknown": unknown, "wrapcalls": wrapCalls, "hookcalls": hookCalls, "src": src}
+}
+
 func main() {
 	verifbridge.SetRuntimeTracer(hook)
 	drv.Main(&drv.Sub{
@@ -168,13 +281,16 @@ func main() {
 		Each: func(raw json.RawMessage, seed int64) []any {
 			var c c19Case
 			drv.Must(json.Unmarshal(raw, &c))
+			// the embedder's own objects: in a history they are MUTATED IN PLACE between the two builds
+			p1decls := native.Declarations{"A": p1A, "B": p1B}
+			p2decls := native.Declarations{"A": p2A}
 			pk := native.Packages{}
 			for _, p := range c.Importer {
 				switch p {
 				case "p1":
-					pk["p1"] = native.Package{Name: "p1", Declarations: native.Declarations{"A": p1A, "B": p1B}}
+					pk["p1"] = native.Package{Name: "p1", Declarations: p1decls}
 				case "p2":
-					pk["p2"] = native.Package{Name: "p2", Declarations: native.Declarations{"A": p2A}}
+					pk["p2"] = native.Package{Name: "p2", Declarations: p2decls}
 				}
 			}
 			globals := native.Declarations{}
@@ -184,78 +300,42 @@ func main() {
 				}
 			}
 			var out []any
-			usesGlobal := false
+			usesGlobal, usesBuiltin := false, false
 			for _, s := range c.Prog {
 				if s.Pkg == "" {
 					usesGlobal = true
+				}
+				if s.Pkg == "#" {
+					usesBuiltin = true
 				}
 			}
 			forms := []string{"template"}
 			if !usesGlobal && len(c.Globals) == 0 {
 				forms = []string{"program", "template"}
 			}
+			_ = usesBuiltin
+			steps := 1
+			if c.Hist {
+				steps = 2
+			}
 			for _, form := range forms {
-				mu.Lock()
-				wrapCalls, hookCalls, hookNames, unknown, active = 0, 0, nil, 0, true
-				mu.Unlock()
-				build := "ok"
-				src := ""
-				func() {
-					defer func() {
-						if v := recover(); v != nil {
-							build = "hostpanic"
-						}
-					}()
-					opts := &scriggo.BuildOptions{AllowGoStmt: c.AllowGo, Packages: pk}
-					var run func() error
-					var err error
-					if form == "program" {
-						src = goSource(c)
-						var p *scriggo.Program
-						p, err = scriggo.Build(scriggo.Files{"main.go": []byte(src)}, opts)
-						if err == nil {
-							run = func() error { return p.Run(nil) }
-						}
-					} else {
-						src = tmplSource(c)
-						opts.Globals = globals
-						var t *scriggo.Template
-						t, err = scriggo.BuildTemplate(scriggo.Files{"index.txt": []byte(src)}, "index.txt", opts)
-						if err == nil {
-							run = func() error { return t.Run(&bytes.Buffer{}, nil, nil) }
-						}
-					}
-					if err != nil {
-						var be *scriggo.BuildError
-						if errors.As(err, &be) {
-							build = "builderror"
-						} else {
-							build = "othererror"
-						}
-						return
-					}
-					if rerr := run(); rerr != nil {
-						build = "runerror:" + rerr.Error()
-					}
-				}()
-				// a `go` call of a native function completes asynchronously
-				for k := 0; k < 200; k++ {
-					mu.Lock()
-					done := wrapCalls >= hookCalls
-					mu.Unlock()
-					if done {
-						break
-					}
-					time.Sleep(100 * time.Microsecond)
+				// fresh embedder objects for each form
+				p1decls["A"], p1decls["B"] = p1A, p1B
+				delete(p1decls, "C")
+				if len(c.Globals) > 0 {
+					globals["A"] = gA
 				}
-				mu.Lock()
-				active = false
-				calls := make([][2]string, len(hookNames))
-				copy(calls, hookNames)
-				rec := map[string]any{"id": c.ID, "form": form, "importer": c.Importer, "globals": c.Globals, "allowgo": c.AllowGo,
-					"prog": c.Prog, "build": build, "calls": calls, "unknown": unknown, "wrapcalls": wrapCalls, "hookcalls": hookCalls, "src": src}
-				mu.Unlock()
-				out = append(out, rec)
+				for step := 1; step <= steps; step++ {
+					if step == 2 {
+						// same maps, same lengths, other contents
+						delete(p1decls, "B")
+						p1decls["C"] = p1C
+						if _, ok := globals["A"]; ok {
+							globals["A"] = gA2
+						}
+					}
+					out = append(out, buildAndRun(c, form, step, pk, globals, p1decls, p2decls))
+				}
 			}
 			return out
 		},
